@@ -1,0 +1,9 @@
+//go:build !verif
+// +build !verif
+
+package iavl
+
+// Scheduling seams for the /verif deterministic simulator; empty without the "verif" build tag.
+func simIterStart(*iavlIterator) {}
+func simIterDone(*iavlIterator)  {}
+func simIterWait(*iavlIterator)  {}
